@@ -366,7 +366,10 @@ def report_rejection(ctx, rec, lin_module, cfg_consts, prop):
            "schedule": sch, "history": [json.loads(x) for x in body], "tree": build.tree_hash(), "extra": j.extra}
     with open(path, "w") as f:
         json.dump(doc, f, indent=1)
-    k = match_known(prop, j.driver, j.variant, kind, j.program)
+    # attribution events of the driver (x lost(key, cause), see drivers/set_lock.cpp) refine the signature: "reject:lost1", "reject:lost2,lost4", ...
+    detail = ",".join(sorted(set("lost%d" % d.get("b", 0) for d in doc["history"] if d.get("e") == "x" and d.get("op") == "lost")))
+    doc["signature"] = kind + ":" + detail
+    k = match_known(prop, j.driver, j.variant, kind, j.program, detail)
     if k:
         txt = "KNOWN-FINDING: property=%s %s" % (prop, k["text"])
         if txt not in ctx.known:
